@@ -56,7 +56,7 @@ def build(case):
     el = [i for i in range(n) if i not in rb and i not in rf]
     rng = util.rng_of(case["seed"])
     B = np.diag(b).astype(float)
-    if case["form"] == "nonprop" and len(el) >= 2:
+    if (case["form"] == "nonprop" or (case["form"] == "physical" and case.get("gyro"))) and len(el) >= 2:
         X = rng.standard_normal((len(el), len(el)))
         P = X @ X.T
         P *= case["cpl"] * np.sqrt(np.outer(b[el] + 1e-3, b[el] + 1e-3)) / np.abs(P).max()
@@ -134,7 +134,13 @@ def hand_over(case, S):
         Phi = Q1 @ np.diag(s) @ Q2.T
         iP = la.inv(Phi)
         M_in, B_in, K_in = iP.T @ Mm @ iP, iP.T @ Bm @ iP, iP.T @ Km @ iP
-        M_in, B_in, K_in = (M_in + M_in.T) / 2, (B_in + B_in.T) / 2, (K_in + K_in.T) / 2
+        if not np.array_equal(Bm, Bm.T):
+            # gyroscopic part present: symmetric and skew parts are cleaned of round-off separately
+            Bs_, Bk_ = iP.T @ ((Bm + Bm.T) / 2) @ iP, iP.T @ ((Bm - Bm.T) / 2) @ iP
+            B_in = (Bs_ + Bs_.T) / 2 + (Bk_ - Bk_.T) / 2
+        else:
+            B_in = (B_in + B_in.T) / 2
+        M_in, K_in = (M_in + M_in.T) / 2, (K_in + K_in.T) / 2
         kap = np.linalg.cond(Phi) ** 2
         lam_ = np.sort(np.abs(np.where(S["k"] == 0, 0.0, S["k"] / S["m"])))
         gaps = np.diff(np.unique(lam_))
@@ -254,7 +260,7 @@ def oracle(case, R):
     # be restored for the frequency-domain solve) and may already have solved a transient
     hstep = case.get("h")
     tsu = ode.SolveUnc(M_in, B_in, K_in, **kw) if hstep is None else ode.SolveUnc(M_in, B_in, K_in, hstep, **kw)
-    if case.get("gyro") and form == "nonprop" and len(S["el"]) >= 2:
+    if case.get("gyro") and form in ("nonprop", "physical") and len(S["el"]) >= 2:
         R.label("damping:nonsymmetric")
     R.label("mass:int_dtype" if case.pop("_mass_label", "") == "int" else "mass:float")
     R.label("h=None" if hstep is None else "h_given")
